@@ -95,6 +95,8 @@ pub struct World {
     pub chain: Vec<(u64, Block)>,
     pub known_users: Vec<u64>,
     pub panicked: bool,
+    /// per user: message and signature of its latest properly signed request (for replays)
+    last_good: HashMap<u64, (Vec<u8>, String)>,
     /// an operation did not return within the step time-out (a handler stuck on a lock or a wait): the
     /// worker thread is abandoned, nothing more can be asked of this tower
     pub hung: bool,
@@ -211,6 +213,7 @@ impl World {
             chain,
             known_users: Vec::new(),
             panicked: false,
+            last_good: HashMap::new(),
             hung: false,
             watch_hangs: false,
             worker: None,
@@ -389,8 +392,17 @@ impl World {
     fn make_sig(&mut self, uid: u64, class: u8, msg: &[u8], other_msg: &[u8]) -> String {
         let (sk, _) = self.user(uid);
         let good = cryptography::sign(msg, &sk);
+        if class == 0 {
+            self.last_good.insert(uid, (msg.to_vec(), good.clone()));
+        }
         match class {
             0 => good,
+            // a REPLAY: the proper signature this user produced for its latest well-signed request, presented with
+            // a different request (a signature binds its own message only)
+            7 => match self.last_good.get(&uid) {
+                Some((m, s)) if m.as_slice() != msg => s.clone(),
+                _ => cryptography::sign(other_msg, &sk),
+            },
             1 => "d7xq9yfh3wzce5k8".repeat(6),                 // zbase32 alphabet, not a signature
             2 => good[..good.len() / 2].to_string(),             // truncated
             3 => cryptography::sign(other_msg, &sk),             // valid for another message
